@@ -5,11 +5,13 @@ import json, os, re, shutil, subprocess, sys, time
 pid, k = sys.argv[1], sys.argv[2]
 src = f"/tmp/seedout_{pid}"
 checks = [pid]
+name = None
 args = sys.argv[3:]
 while args:
     a = args.pop(0)
     if a == "--src": src = args.pop(0)
     if a == "--checks": checks = args.pop(0).split(",")
+    if a == "--name": name = args.pop(0)
 patch, demo, note = f"{src}/patch_{k}.diff", f"{src}/demo_{k}.py", f"{src}/note_{k}.txt"
 wt = f"/tmp/keepseed_{os.getpid()}"
 def sh(cmd, **kw):
@@ -48,7 +50,7 @@ try:
 finally:
     sh(f"git -C /repo worktree remove --force {wt}")
 ok = clean_exit == 0 and changed_exit != 0 and "658 passed" in suite
-out = f"/verif/seeded/{pid}-{k}"
+out = f"/verif/seeded/{name or (pid + '-' + k)}"
 os.makedirs(out, exist_ok=True)
 open(f"{out}/patch.diff", "w").write(cur_patch)
 shutil.copy(demo, f"{out}/demo.py")
